@@ -33,6 +33,21 @@ def run_case(c):
     if k == "canary":
         r = n_api.run_operation("get_state", 1, i)
         return {"ok": r["k"] == "ret"}
+    if k == "sweep" and i.get("debug_logging"):
+        # the same sweep with the library's loggers at DEBUG (code that only runs when debugging must not change the outcome)
+        import logging
+        lg = logging.getLogger("aioswitcher")
+        old_level, old_handlers = lg.level, list(lg.handlers)
+        lg.setLevel(logging.DEBUG)
+        lg.addHandler(logging.NullHandler())
+        try:
+            r = run_case({"kind": "sweep", "inputs": {kk: vv for kk, vv in i.items() if kk != "debug_logging"}})
+        finally:
+            lg.setLevel(old_level)
+            lg.handlers[:] = old_handlers
+        if not r.get("ok"):
+            r["detail"] = "with the aioswitcher logger at DEBUG: " + str(r.get("detail", ""))
+        return r
     if k == "sweep":
         rnd = random.Random(i["seed"])
         base = os.path.join(os.environ.get("PYVC_REPO", "/repo"), "tests", "testresources", "dummy_responses")
@@ -44,7 +59,7 @@ def run_case(c):
             op, kind = (QUERIES + TYPE2)[n % 7]
             mode = rnd.randrange(5)
             if mode == 0:
-                R2 = bytes(rnd.randrange(256) for _ in range(rnd.randrange(0, 200)))
+                R2 = bytes(rnd.randrange(256) for _ in range(rnd.choice([rnd.randrange(0, 200), 1023, 1024, 1024])))
             elif mode == 1:
                 g = good.get(op, bytes(120))
                 R2 = g[:rnd.randrange(0, len(g) + 1)]
@@ -57,7 +72,8 @@ def run_case(c):
                 R2 = good.get(op, bytes(120)) + bytes(rnd.randrange(256) for _ in range(rnd.randrange(0, 50)))
             else:
                 R2 = b""
-            R1 = rnd.choice([b"", bytes(5), bytes(rnd.randrange(256) for _ in range(44))])
+            R1 = rnd.choice([b"", bytes(5), bytes(rnd.randrange(256) for _ in range(44)), bytes(rnd.randrange(256) for _ in range(rnd.randrange(1, 4))),
+                             bytes(rnd.randrange(256) for _ in range(1024))])
             inp = {"dev_id": canon(bytes(3)), "dev_key": canon(b"\x00"), "R1": canon(R1), "R2": canon(R2), "now": 1700000000, "position": 50}
             r = check(op, kind, inp)
             if not r["ok"]:
